@@ -100,7 +100,7 @@ fn make_case(arg_lists: &[Vec<usize>], iface_oneway: bool, method_oneway_mask: u
         item.members.push(Member::Method(m));
     }
     let mut files = support();
-    files.push(ProjFile::from_doc("obs", observed_header(item)));
+    files.push(ProjFile::from_doc_styled("obs", observed_header(item), method_oneway_mask == 0x5555));
     let oi = files.len() - 1;
     let exp = expect_observed(&files, oi);
     let doc = files[oi].doc.as_ref().unwrap();
